@@ -516,6 +516,18 @@ func (e *specEnv) callExpr(c *ast.CallExpr) Val {
 					e.fail(c, "holdsNonNil(interface)")
 				}
 				return scalar(Or(Eq(v.Fs[0].T, BVU(0, 64)), Not(Eq(v.Fs[1].T, BVU(0, 64)))), types.Typ[types.Bool])
+			case "lastInt":
+				// lastInt("callee"): the integer result of the most recent call of that callee in this execution (as int64)
+				bl, ok := c.Args[0].(*ast.BasicLit)
+				if !ok {
+					e.fail(c, "lastInt needs a string literal")
+				}
+				name := strings.Trim(bl.Value, "\"`")
+				v, have := e.x.lastRes[name]
+				if !have || v.K != VScalar || v.T == nil || v.T.S.K != KBV {
+					e.fail(c, "no integer result recorded for a call of %s before this point", name)
+				}
+				return scalar(SignExt(v.T, 64), types.Typ[types.Int64])
 			case "lastBool":
 				// lastBool("callee"): the boolean result of the most recent call of that callee in this execution
 				bl, ok := c.Args[0].(*ast.BasicLit)
@@ -560,6 +572,11 @@ func (e *specEnv) callExpr(c *ast.CallExpr) Val {
 			case "sameSlice":
 				a, b := e.expr(c.Args[0]), e.expr(c.Args[1])
 				return scalar(And(Eq(a.base(), b.base()), Eq(a.off(), b.off()), Eq(a.len(), b.len())), types.Typ[types.Bool])
+			case "suffixOf":
+				// suffixOf(a, b): slice a is a suffix of slice b (same backing array, same end, starts at or after b's start)
+				a, b := e.expr(c.Args[0]), e.expr(c.Args[1])
+				return scalar(And(Eq(a.base(), b.base()), BVCmp("bvuge", a.off(), b.off()),
+					Eq(BVBin("bvadd", a.off(), a.len()), BVBin("bvadd", b.off(), b.len()))), types.Typ[types.Bool])
 			case "sameElems":
 				// sameElems(a, b): slices a (current state) and b (current state) have equal length and elements — quantifier-free via row equality when offsets match
 				e.fail(c, "sameElems not supported")
